@@ -117,6 +117,10 @@ func ruleJournalWrite(p *Prog, r *Report, rule string) {
 }
 
 func runC04(p *Prog, r *Report) {
+	if want("C04.33") {
+		// (shared with C12) an undamaged journal must read back: no padding that parses as a header
+		ruleJournalTailPadding(p, r, "C04.33")
+	}
 	if want("C04.32") {
 		// a failed journal write latches: no later record is reported written (shared with C08/C12)
 		ruleStickyWriter(p, r, "C04.32")
